@@ -663,6 +663,60 @@ def build_via(path, Ap, directed, wp, Wp, ap, rng, tmpdir, grid=None, A0=None, W
     return net, E
 
 
+HUB_MEASURES = ("degree", "indegree", "outdegree", "bildegree", "local_clustering",
+                "local_cyclemotif_clustering", "local_midmotif_clustering",
+                "local_inmotif_clustering", "local_outmotif_clustering", "matching_index",
+                "nsi_degree", "nsi_local_clustering", "max_neighbors_degree",
+                "nsi_average_neighbors_degree", "nsi_max_neighbors_degree", "transitivity",
+                "global_clustering", "nsi_transitivity", "nsi_local_soffer_clustering", "coreness",
+                "betweenness", "closeness", "nsi_closeness", "path_lengths", "assortativity",
+                "link_betweenness", "nsi_local_cyclemotif_clustering", "laplacian", "diameter",
+                "average_path_length", "global_efficiency", "nsi_global_efficiency")
+
+
+def hub_network(ctx, meas):
+    """round 4: hubs of degree beyond 181 (k(k-1) leaves int16, the dtype of `sp_A`) — the sums
+    and matrix products over the adjacency matrix must not depend on where the hub is numbered"""
+    from pyunicorn.core import Network
+    rng = ctx.rng
+    n = rng.choice([190, 230, 260])
+    hub_seed = rng.randrange(10 ** 6)
+    import random as _random
+    r = _random.Random(hub_seed)
+    A = np.zeros((n, n), dtype=int)
+    h1, h2 = r.sample(range(n), 2)
+    for j in range(n):
+        if j != h1:
+            A[h1, j] = A[j, h1] = 1
+        if j != h2 and r.random() < 0.85:
+            A[h2, j] = A[j, h2] = 1
+    for i in range(n):
+        for j in range(i):
+            if r.random() < 0.04:
+                A[i, j] = A[j, i] = 1
+    w = np.array([r.choice([0.5, 1.0, 2.0, 3.0]) for _ in range(n)])
+    W = np.zeros((n, n))
+    for i in range(n):
+        for j in range(i):
+            if A[i, j]:
+                W[i, j] = W[j, i] = r.choice([0.5, 1.0, 2.0, 4.0])
+    perm = list(range(n))
+    r.shuffle(perm)
+
+    def mk(p):
+        idx = np.arange(n) if p is None else np.array(p)
+        net = Network(adjacency=A[idx][:, idx], node_weights=w[idx], silence_level=3)
+        net.set_link_attribute("w", W[idx][:, idx])
+        return net
+    ctx.case(("hub", n, hub_seed), True)
+    ctx.count("hub-network:n=%d" % n)
+    equivariance(ctx, "Network", mk, perm, [m for m in HUB_MEASURES if m in meas["Network"]], n,
+                 {"hub_network": True, "n": n, "hub_seed": hub_seed, "hubs": [h1, h2],
+                  "generator": "harness/c04.py:hub_network"},
+                 extra_calls=[c for c in weighted_calls(Network)
+                              if c[0] not in ("local_vulnerability", "node_attribute")])
+
+
 def construction_paths(ctx, A, directed, w, W, pos, lat, lon, perm, base, meas, full, reqs, meta):
     """round 4 (seeded change C04-6): the reference network is built from the dense adjacency
     matrix in the original numbering; its renumbered twin is built through *every other*
@@ -759,7 +813,9 @@ def run(ctx):
     ctx.rule = ("graphs: labelled undirected n<=4 (all), directed n<=3, random up to 9 (thorough 14) "
                 "nodes, with weights, a link attribute, coordinates and a bipartition; permutations: "
                 "all n! for n<=4 (thorough 5), 3 (8) random beyond; distinct = distinct (class, graph, "
-                "permutation); non-trivial = permutation is not the identity and the graph has a link")
+                "permutation); non-trivial = permutation is not the identity and the graph has a link; "
+                "round 4: renumbered twins built through 20 construction paths from links in random "
+                "order (attributes set afterwards), hub networks (degree 189..259) of 190..260 nodes")
     ctx.proofs()
     meas = {c.__name__: zero_arg_measures(c) for c in
             (Network, SpatialNetwork, GeoNetwork, ResNetwork)}
@@ -907,6 +963,8 @@ def run(ctx):
                 if n <= 8:
                     reqs.append(res_request(A, Rres, perm))
                     meta.append(("res", gi, perm, impl_res(Rres, perm)))
+    for _ in range(1 if quick else 4):
+        hub_network(ctx, meas)
     timeseries_networks(ctx, reqs, meta)
     model = common.driver(ctx.pid, reqs)
     bad_rel, bad_eval, nvals = [], [], 0
